@@ -73,8 +73,11 @@ def make_variant(exp, r, g, kind):
     rows = []
     dates = exp['dates']
     periods = exp['periods']
+    # the bystander geo sits in a shared table: ITS period labels may run ahead (another experiment's test began
+    # two days earlier there); it belongs to neither group, so nothing of it may matter
+    ahead = r.choice([0, 2, 2])
     for k, d in enumerate(dates):
-      rows.append((d, 9001, -1, periods[k], float(g.normal(50, 5)), float(abs(g.normal(1, 0.2)))))
+      rows.append((d, 9001, -1, periods[min(k + ahead, len(dates) - 1)], float(g.normal(50, 5)), float(abs(g.normal(1, 0.2)))))
     out = pd.concat([f, pd.DataFrame(rows, columns=BASE_COLS)], ignore_index=True)
     # extra dates labelled unassigned (-1) for all geos, before the pre-period
     first = min(dates)
